@@ -1404,3 +1404,4 @@ CLAUSES = [
 # every toqito call of this property is repeated with column-major copies of its array arguments (engine.call, layout twin)
 for _c in CLAUSES:
     _c.layout_twin = True
+    _c.repeat_twin = True  # constructors are pure: repeated calls agree, and scribbling over a returned array must not affect later calls
